@@ -1,7 +1,7 @@
 #!/bin/sh
-# offline setup: install helper packages (mpmath, icontract, jsonschema) from the local
-# wheelhouse into the git-ignored .deps directory next to this file
+# offline setup: install helper packages (mpmath, icontract, jsonschema; scipy for the Bessel evaluation
+# monitored by C24) from the local wheelhouse into the git-ignored .deps directory next to this file
 here="$(cd "$(dirname "$0")" && pwd)"
 cd "$here" || exit 1
 export PIP_NO_INDEX=1
-PYTHONPATH="$here" /venv/bin/python -B -c "import vf; print('ufl from', vf.bootstrap().__file__)"
+PYTHONPATH="$here" /venv/bin/python -B -c "import vf; print('ufl from', vf.bootstrap().__file__); from vf import c24_deps; print('scipy for C24:', c24_deps.HAVE_SCIPY)"
